@@ -133,3 +133,26 @@ Theorem alias_tree_facets : forall g name size (D : leaf -> list (list bytes)) t
   search g t rq = Some r ->
   r_facets r = [(name, terms_build size (flat_map D (leaves t)))].
 Proof. intros g name size D t. exact (tree_facets_ok_all g name size D t). Qed.
+
+(* hypotheses satisfiable on a non-trivial value: nested aliases, three members, one without matches
+   (for the example a document's terms are carried in its stored-field values) *)
+Definition exf_D (lf : leaf) : list (list bytes) := map (fun h => map snd (hfields h)) (l_matches lf).
+Definition exf_leaf (docs : list (list bytes)) : leaf :=
+  {| l_matches := map (fun ts => {| hkeys := []; hid := []; hnum := 0; hfields := map (fun t => ([], t)) ts |}) docs;
+     l_maxscore := 0; l_facets := [([102], terms_build 3 docs)] |}.
+Definition exf_tree : tree :=
+  Alias [Leaf (exf_leaf [[[1]; [2]]; []]); Alias [Leaf (exf_leaf []); Leaf (exf_leaf [[[3]; [2]]; [[1]]])]].
+Definition exf_rq : request :=
+  {| q_desc := [false]; q_from := 0; q_size := 1; q_after := None; q_before := None; q_fsizes := [([102], 3)] |}.
+
+Example alias_tree_facets_example :
+  wf_tree exf_tree = true /\
+  Forall (fun lf => l_facets lf = [([102], terms_build 3 (exf_D lf))]) (leaves exf_tree) /\
+  zlen (terms_count (flat_map exf_D (leaves exf_tree))) <= 3 /\
+  option_map r_facets (search GuardGt exf_tree exf_rq)
+  = Some [([102], {| f_total := 5; f_missing := 1; f_other := 0;
+                     f_terms := Some [([1], 2); ([2], 2); ([3], 1)]; f_nranges := None |})].
+Proof.
+  split; [reflexivity|]. split; [repeat constructor|]. split; [vm_compute; discriminate|].
+  vm_compute. reflexivity.
+Qed.
